@@ -15,6 +15,7 @@ CONSTANTS
   Callers = {"pred"}
   SelMode = "all"
   WithNA = TRUE
+  NAInExpected = FALSE
   ExtraSet <- EX_none
   Export = TRUE
   SampleMod = 8
